@@ -415,6 +415,9 @@ def check(case):
     tags.add('cols:' + case.get('cols', 'ln'))
     if c.demand is not None:
         tags.add('attr:demand')
+        mx = max([d for k, d in c.nodes if k == 'J'] or [0.0])
+        if 0.0 < mx < 1e-4:
+            tags.add('attr:demand_all_below_1e-4')
     if c.length is not None:
         tags.add('attr:length')
     incid = [(j, e) for j in range(c.m) for e in (0, 1)]
@@ -474,6 +477,10 @@ def strategy(draw, tier='quick'):
     for _ in range(n):
         kind = draw(st.sampled_from(['J', 'J', 'J', 'J', 'R', 'T']))
         nodes.append([kind, draw(_dem) if kind == 'J' else 0.0])
+    # demands of real models are 1e-2 .. 1e-7 m3/s: one case in two scales all of them down
+    dscale = draw(st.sampled_from([1.0, 1.0, 1.0, 1e-3, 1e-5, 1e-7, 1e-9]))
+    for nd in nodes:
+        nd[1] *= dscale
     links = []
     if n >= 2:
         m = draw(st.integers(1, 14 if big else 10))
